@@ -2783,6 +2783,548 @@ theorem compose_graded_init (T1 : FST ι σ K) (T2 : FST κ σ K) (p' : ι) (q' 
 
 end ComposeGeneral
 
+/-! ### the two branches of `__matmul__` agree -/
+section Assoc
+variable {ι κ τ σ K : Type} [DecidableEq ι] [DecidableEq κ] [DecidableEq τ] [DecidableEq σ]
+  [CommSemiring K]
+
+omit [DecidableEq ι] [DecidableEq κ] [CommSemiring K] in
+/-- the output symbols of a product are output symbols of its right factor -/
+theorem composeRaw_out_mem [Mul K] (A : FST ι σ K) (B : FST κ σ K) (syms : List σ)
+    (hB : ∀ e ∈ B.arcs, ∀ b, e.out = some b → b ∈ syms) :
+    ∀ e ∈ (A.composeRaw B).arcs, ∀ b, e.out = some b → b ∈ syms := by
+  intro e he b hb
+  simp only [FST.composeRaw, List.mem_flatMap, List.mem_map, List.mem_filter] at he
+  obtain ⟨e1, _, e2, ⟨he2, _⟩, rfl⟩ := he
+  exact hB e2 he2 b hb
+
+/-- **the product construction is associative** up to re-association of the states, path length
+by path length (no hypothesis on ε) -/
+theorem composeRaw_assoc_Tk (A : FST ι σ K) (B : FST τ σ K) (C : FST κ σ K) (k : Nat)
+    (p : ι) (f : τ) (q : κ) (x z : List σ) (p' : ι) (f' : τ) (q' : κ) :
+    Tk ((A.composeRaw B).composeRaw C) k ((p, f), q) x z ((p', f'), q')
+      = Tk (A.composeRaw (B.composeRaw C)) k (p, (f, q)) x z (p', (f', q')) := by
+  have hA := fun e he b hb => out_mem_outSyms A e he b hb
+  have hB := fun e he b hb => out_mem_outSyms B e he b hb
+  rw [composeRaw_Tk (A.composeRaw B) C B.outSyms (nodup_eraseDups _)
+      (composeRaw_out_mem A B B.outSyms hB),
+    composeRaw_Tk A (B.composeRaw C) A.outSyms (nodup_eraseDups _) hA]
+  simp only [composeRaw_Tk A B A.outSyms (nodup_eraseDups _) hA,
+    composeRaw_Tk B C B.outSyms (nodup_eraseDups _) hB]
+  simp only [← List.sum_map_mul_left, ← List.sum_map_mul_right]
+  rw [sum_swap]
+  apply congrArg
+  apply List.map_congr_left
+  intro y1 _
+  apply congrArg
+  apply List.map_congr_left
+  intro y2 _
+  ring
+
+/-- the two association orders chosen by `__matmul__` give the same relation, path length by path
+length -/
+theorem compose'_Tk (T1 : FST ι σ K) (T2 : FST κ σ K) (k : Nat) (p : ι) (f : Nat) (q : κ)
+    (x z : List σ) (p' : ι) (f' : Nat) (q' : κ) :
+    Tk (T1.compose' T2) k (p, (f, q)) x z (p', (f', q'))
+      = Tk (T1.compose T2) k ((p, f), q) x z ((p', f'), q') := by
+  unfold FST.compose' FST.compose FST.composeR FST.composeL
+  rw [unlift_Tk, unlift_Tk, composeRaw_assoc_Tk]
+
+end Assoc
+
+/-! ### `__matmul__` without ε on the middle tape -/
+section EpsFree
+variable {ι κ σ K : Type} [DecidableEq ι] [DecidableEq κ] [DecidableEq σ] [CommSemiring K]
+
+/-- without ε on the middle tape, `T1 @ T2` (through the filter) has the paths of the plain product,
+all of them inside filter state `0` -/
+theorem compose_epsfree_Tk (T1 : FST ι σ K) (T2 : FST κ σ K)
+    (h1 : ∀ e ∈ T1.arcs, e.out ≠ none) (h2 : ∀ e ∈ T2.arcs, e.inp ≠ none)
+    (k f : Nat) (hf : f ≤ 2) (p : ι) (hp : p ∈ T1.states) (q : κ) (hq : q ∈ T2.states)
+    (x z : List σ) (p' : ι) (f' : Nat) (q' : κ) :
+    Tk (T1.compose T2) k ((p, f), q) x z ((p', f'), q')
+      = if (k = 0 ∧ f' = f) ∨ (1 ≤ k ∧ f' = 0) then Tk (T1.composeRaw T2) k (p, q) x z (p', q')
+        else 0 := by
+  induction k generalizing f p q x z with
+  | zero =>
+    simp only [Tk_zero, Prod.mk.injEq, true_and, Nat.le_zero_eq, Nat.succ_ne_zero, false_and,
+      or_false]
+    by_cases hff : f' = f
+    · subst hff; simp [and_assoc]
+    · have : ¬ (f = f') := fun h => hff h.symm
+      simp [hff, this]
+  | succ k ih =>
+    rw [Tk_succ, compose_src_sum T1 T2 p hp q hq f, Tk_succ, composeRaw_src_sum]
+    -- `T2` never moves alone
+    have hright : ∀ (G : TArc κ σ K → K),
+        ((T2.arcs.filter (fun e => e.src = q)).map fun e2 => if e2.inp = none then G e2 else 0).sum
+          = 0 := by
+      intro G
+      apply sum_map_zero
+      intro e2 he2
+      rw [if_neg (h2 e2 (List.mem_filter.mp he2).1)]
+    rw [hright, ite_self, zero_add]
+    have hcond : ((k + 1 = 0 ∧ f' = f) ∨ (1 ≤ k + 1 ∧ f' = 0)) ↔ f' = 0 := by
+      constructor
+      · rintro (⟨h, _⟩ | ⟨_, h⟩)
+        · omega
+        · exact h
+      · intro h; exact Or.inr ⟨by omega, h⟩
+    simp only [hcond]
+    rw [← sum_ite_c]
+    apply congrArg
+    apply List.map_congr_left
+    intro e1 he1
+    have hmem1 : e1 ∈ T1.arcs := (List.mem_filter.mp he1).1
+    cases ho : e1.out with
+    | none => exact absurd ho (h1 e1 hmem1)
+    | some b =>
+      simp only [optCase_some, if_pos hf, Option.isSome_some, true_and]
+      rw [← sum_ite_c]
+      apply congrArg
+      apply List.map_congr_left
+      intro e2 he2
+      have hmem2 : e2 ∈ T2.arcs := (List.mem_filter.mp he2).1
+      by_cases hi : e2.inp = some b
+      · simp only [hi, if_true, prodArc]
+        have hih : ∀ x' z', Tk (T1.compose T2) k ((e1.dst, 0), e2.dst) x' z' ((p', f'), q')
+            = if f' = 0 then Tk (T1.composeRaw T2) k (e1.dst, e2.dst) x' z' (p', q') else 0 := by
+          intro x' z'
+          rw [ih 0 (by decide) e1.dst (FstAux.mem_states_dst T1 e1 hmem1) e2.dst
+            (FstAux.mem_states_dst T2 e2 hmem2)]
+          have : ((k = 0 ∧ f' = 0) ∨ (1 ≤ k ∧ f' = 0)) ↔ f' = 0 := by
+            constructor
+            · rintro (⟨_, h⟩ | ⟨_, h⟩) <;> exact h
+            · intro h
+              by_cases hk : k = 0
+              · exact Or.inl ⟨hk, h⟩
+              · exact Or.inr ⟨by omega, h⟩
+          simp only [this]
+        simp only [hih]
+        by_cases hf' : f' = 0
+        · simp [hf']
+        · simp [hf']
+      · simp [hi]
+
+omit [DecidableEq ι] [DecidableEq κ] [DecidableEq σ] in
+theorem compose_start [DecidableEq ι] [DecidableEq κ] [DecidableEq σ] (T1 : FST ι σ K)
+    (T2 : FST κ σ K) :
+    (T1.compose T2).start
+      = T1.start.flatMap fun s1 => T2.start.map fun s2 => (((s1.1, 0), s2.1), s1.2 * 1 * s2.2) := by
+  simp [FST.compose, FST.composeL, FST.unlift, FST.composeRaw, FST.augment, epsilonFilter,
+    List.flatMap_assoc]
+
+omit [DecidableEq ι] [DecidableEq κ] [DecidableEq σ] in
+theorem compose_stop [DecidableEq ι] [DecidableEq κ] [DecidableEq σ] (T1 : FST ι σ K)
+    (T2 : FST κ σ K) :
+    (T1.compose T2).stop
+      = T1.stop.flatMap fun f1 => [0, 1, 2].flatMap fun φ => T2.stop.map fun f2 =>
+          (((f1.1, φ), f2.1), f1.2 * 1 * f2.2) := by
+  simp [FST.compose, FST.composeL, FST.unlift, FST.composeRaw, FST.augment, epsilonFilter,
+    List.flatMap_assoc]
+
+theorem compose_epsfree_TPk (T1 : FST ι σ K) (T2 : FST κ σ K)
+    (h1 : ∀ e ∈ T1.arcs, e.out ≠ none) (h2 : ∀ e ∈ T2.arcs, e.inp ≠ none)
+    (k : Nat) (x z : List σ) :
+    TPk (T1.compose T2) k x z = TPk (T1.composeRaw T2) k x z := by
+  have hstart : (T1.composeRaw T2).start
+      = T1.start.flatMap fun s1 => T2.start.map fun s2 => ((s1.1, s2.1), s1.2 * s2.2) := rfl
+  have hstop : (T1.composeRaw T2).stop
+      = T1.stop.flatMap fun f1 => T2.stop.map fun f2 => ((f1.1, f2.1), f1.2 * f2.2) := rfl
+  simp only [TPk_eq]
+  rw [compose_start, compose_stop, hstart, hstop]
+  simp only [sum_flatMap, List.map_map, Function.comp_def]
+  apply congrArg
+  apply List.map_congr_left
+  intro s1 hs1
+  apply congrArg
+  apply List.map_congr_left
+  intro s2 hs2
+  apply congrArg
+  apply List.map_congr_left
+  intro f1 _
+  simp only [compose_epsfree_Tk T1 T2 h1 h2 k 0 (by decide) s1.1 (FstAux.mem_states_start T1 s1 hs1)
+    s2.1 (FstAux.mem_states_start T2 s2 hs2)]
+  simp only [List.map_cons, List.map_nil, List.sum_cons, List.sum_nil, add_zero]
+  have e1 : ¬ ((1 : Nat) = 0) := by decide
+  have e2 : ¬ ((2 : Nat) = 0) := by decide
+  by_cases hk : k = 0
+  · subst hk
+    simp
+  · have hk' : 1 ≤ k := by omega
+    simp [hk, hk']
+
+/-- **`compose_no_eps`**: if no arc of `T1` writes ε and no arc of `T2` reads ε, the machine built
+by `__matmul__` (augmentation, filter, two products) computes
+`(T1 @ T2)(x, z) = Σ_y T1(x, y) · T2(y, z)`, stratified by the number of arcs -/
+theorem compose_epsfree_TPN (T1 : FST ι σ K) (T2 : FST κ σ K)
+    (h1 : ∀ e ∈ T1.arcs, e.out ≠ none) (h2 : ∀ e ∈ T2.arcs, e.inp ≠ none)
+    (n : Nat) (x z : List σ) :
+    TPN (T1.compose T2) n x z
+      = ((strsLe T1.outSyms n).map fun y => TPN T1 n x y * TPN T2 n y z).sum := by
+  rw [← composeRaw_TPN' T1 T2 h1 h2]
+  simp only [TPN_eq, compose_epsfree_TPk T1 T2 h1 h2]
+
+end EpsFree
+
+/-! ### summing the grades out: `GN` refines the bounded path sums `Tk` -/
+namespace FstAux
+section Shift
+variable {K : Type} [CommSemiring K]
+
+/-- shifting a bounded sum by a grade `g ≤ 1` -/
+theorem sum_range_shift (N g : Nat) (hg : g ≤ 1) (F : Nat → K) (hF : F (N+1) = 0) :
+    ((List.range (N+2)).map fun k => if g ≤ k then F (k - g) else 0).sum
+      = ((List.range (N+1)).map F).sum := by
+  have h01 : g = 0 ∨ g = 1 := by omega
+  rcases h01 with rfl | rfl
+  · simp only [Nat.zero_le, if_true, Nat.sub_zero]
+    rw [List.range_succ (n := N+1), List.map_append, List.sum_append]
+    simp [hF]
+  · rw [List.range_succ_eq_map (n := N+1), List.map_cons, List.sum_cons, List.map_map]
+    simp [Function.comp_def]
+
+theorem sum_range_ind0 (N : Nat) (c : K) :
+    ((List.range (N+1)).map fun k => if k = 0 then c else 0).sum = c := by
+  rw [sum_range_ite_eq (N+1) 0 (fun _ => c)]
+  simp
+
+theorem dsum_swap1 {ρ ρ' α : Type} (R : List ρ) (R' : List ρ') (A : List α) (H : ρ → ρ' → α → K) :
+    (R.map fun k1 => (R'.map fun k2 => (A.map fun a => H k1 k2 a).sum).sum).sum
+      = (A.map fun a => (R.map fun k1 => (R'.map fun k2 => H k1 k2 a).sum).sum).sum := by
+  have : ∀ k1 ∈ R, (R'.map fun k2 => (A.map fun a => H k1 k2 a).sum).sum
+      = (A.map fun a => (R'.map fun k2 => H k1 k2 a).sum).sum := fun k1 _ => sum_swap R' A _
+  rw [List.map_congr_left this, sum_swap R A]
+
+theorem dsum_swap3 {ρ ρ' α β γ : Type} (R : List ρ) (R' : List ρ') (E : List α) (L : α → List β)
+    (L' : α → List γ) (H : ρ → ρ' → α → β → γ → K) :
+    (R.map fun k1 => (R'.map fun k2 => (E.map fun e => ((L e).map fun b => ((L' e).map fun c =>
+        H k1 k2 e b c).sum).sum).sum).sum).sum
+      = (E.map fun e => ((L e).map fun b => ((L' e).map fun c =>
+          (R.map fun k1 => (R'.map fun k2 => H k1 k2 e b c).sum).sum).sum).sum).sum := by
+  rw [dsum_swap1]
+  apply congrArg
+  apply List.map_congr_left
+  intro e _
+  rw [dsum_swap1]
+  apply congrArg
+  apply List.map_congr_left
+  intro b _
+  rw [dsum_swap1]
+
+end Shift
+
+section Total
+variable {ι σ K : Type} [DecidableEq ι] [DecidableEq σ] [CommSemiring K]
+
+/-- ungraded bounded path sum to a set of final states -/
+def UN (M : FST ι σ K) (fin : ι → Bool) : Nat → ι → List σ → List σ → K
+  | 0, i, x, y => if fin i = true ∧ x = [] ∧ y = [] then 1 else 0
+  | N+1, i, x, y =>
+    (if fin i = true ∧ x = [] ∧ y = [] then 1 else 0)
+    + ((M.arcs.filter (fun e => e.src = i)).map fun e =>
+        ((lpeel e.inp x).map fun x' => ((lpeel e.out y).map fun y' =>
+          e.w * UN M fin N e.dst x' y').sum).sum).sum
+
+/-- no path with at most `N` arcs of grade `≤ (1, 1)` has a grade component above `N` -/
+theorem GN_vanish (M : FST ι σ K) (gr : TArc ι σ K → Nat × Nat)
+    (hgr : ∀ e ∈ M.arcs, (gr e).1 ≤ 1 ∧ (gr e).2 ≤ 1) (fin : ι → Bool) (N k1 k2 : Nat)
+    (h : N < k1 ∨ N < k2) (i : ι) (x y : List σ) : GN M gr fin N k1 k2 i x y = 0 := by
+  induction N generalizing k1 k2 i x y with
+  | zero =>
+    rw [GN, if_neg]
+    rintro ⟨h1, h2, _⟩; omega
+  | succ N ih =>
+    rw [GN, if_neg (by rintro ⟨h1, h2, _⟩; omega), zero_add]
+    apply sum_map_zero
+    intro e he
+    have hg := hgr e (List.mem_filter.mp he).1
+    split
+    · apply sum_map_zero
+      intro x' _
+      apply sum_map_zero
+      intro y' _
+      rw [ih _ _ (by omega), mul_zero]
+    · rfl
+
+/-- summing over all grades forgets the grading -/
+theorem GN_sum (M : FST ι σ K) (gr : TArc ι σ K → Nat × Nat)
+    (hgr : ∀ e ∈ M.arcs, (gr e).1 ≤ 1 ∧ (gr e).2 ≤ 1) (fin : ι → Bool) (N : Nat)
+    (i : ι) (x y : List σ) :
+    ((List.range (N+1)).map fun k1 => ((List.range (N+1)).map fun k2 =>
+        GN M gr fin N k1 k2 i x y).sum).sum = UN M fin N i x y := by
+  induction N generalizing i x y with
+  | zero => simp [GN, UN]
+  | succ N ih =>
+    simp only [GN, UN, sum_add_map]
+    congr 1
+    · -- the empty path
+      have : ∀ k1 ∈ List.range (N+1+1), ((List.range (N+1+1)).map fun k2 =>
+          if k1 = 0 ∧ k2 = 0 ∧ fin i = true ∧ x = [] ∧ y = [] then (1 : K) else 0).sum
+          = if k1 = 0 then (if fin i = true ∧ x = [] ∧ y = [] then 1 else 0) else 0 := by
+        intro k1 _
+        by_cases h1 : k1 = 0
+        · subst h1
+          simp only [true_and, if_true]
+          have : ∀ k2 ∈ List.range (N+1+1),
+              (if k2 = 0 ∧ fin i = true ∧ x = [] ∧ y = [] then (1 : K) else 0)
+              = if k2 = 0 then (if fin i = true ∧ x = [] ∧ y = [] then 1 else 0) else 0 := by
+            intro k2 _
+            by_cases h2 : k2 = 0 <;> simp [h2]
+          rw [List.map_congr_left this, sum_range_ind0]
+        · simp [h1]
+      rw [List.map_congr_left this, sum_range_ind0]
+    · -- one more arc
+      have hterm : ∀ (e : TArc ι σ K) (k1 k2 : Nat),
+          (if (gr e).1 ≤ k1 ∧ (gr e).2 ≤ k2 then
+            ((lpeel e.inp x).map fun x' => ((lpeel e.out y).map fun y' =>
+              e.w * GN M gr fin N (k1 - (gr e).1) (k2 - (gr e).2) e.dst x' y').sum).sum else 0)
+          = ((lpeel e.inp x).map fun x' => ((lpeel e.out y).map fun y' =>
+              e.w * (if (gr e).1 ≤ k1 then (if (gr e).2 ≤ k2 then
+                GN M gr fin N (k1 - (gr e).1) (k2 - (gr e).2) e.dst x' y' else 0) else 0)).sum).sum := by
+        intro e k1 k2
+        by_cases h1 : (gr e).1 ≤ k1 <;> by_cases h2 : (gr e).2 ≤ k2 <;> simp [h1, h2]
+      simp only [hterm]
+      rw [dsum_swap3]
+      apply congrArg
+      apply List.map_congr_left
+      intro e he
+      have hg := hgr e (List.mem_filter.mp he).1
+      apply congrArg
+      apply List.map_congr_left
+      intro x' _
+      apply congrArg
+      apply List.map_congr_left
+      intro y' _
+      simp only [List.sum_map_mul_left]
+      congr 1
+      rw [← ih e.dst x' y']
+      -- shift both grades
+      have hin : ∀ k1 ∈ List.range (N+2), ((List.range (N+2)).map fun k2 =>
+          if (gr e).1 ≤ k1 then (if (gr e).2 ≤ k2 then
+            GN M gr fin N (k1 - (gr e).1) (k2 - (gr e).2) e.dst x' y' else 0) else 0).sum
+          = if (gr e).1 ≤ k1 then ((List.range (N+1)).map fun b =>
+              GN M gr fin N (k1 - (gr e).1) b e.dst x' y').sum else 0 := by
+        intro k1 _
+        rw [sum_ite_c]
+        split
+        · exact sum_range_shift N (gr e).2 hg.2
+            (fun b => GN M gr fin N (k1 - (gr e).1) b e.dst x' y')
+            (GN_vanish M gr hgr fin N _ _ (Or.inr (Nat.lt_succ_self N)) _ _ _)
+        · rfl
+      rw [List.map_congr_left hin]
+      exact sum_range_shift N (gr e).1 hg.1
+        (fun a => ((List.range (N+1)).map fun b => GN M gr fin N a b e.dst x' y').sum)
+        (sum_map_zero _ _ (fun b _ =>
+          GN_vanish M gr hgr fin N _ _ (Or.inl (Nat.lt_succ_self N)) _ _ _))
+
+/-- `UN` is the sum of the exact-length path sums to the final states -/
+theorem UN_eq (M : FST ι σ K) (fin : ι → Bool) (J : List ι) (hJ : J.Nodup)
+    (hfin : ∀ j, fin j = true ↔ j ∈ J) (N : Nat) (i : ι) (x y : List σ) :
+    UN M fin N i x y
+      = ((List.range (N+1)).map fun k => (J.map fun j => Tk M k i x y j).sum).sum := by
+  have hbase : ∀ (i : ι) (x y : List σ), (if fin i = true ∧ x = [] ∧ y = [] then (1 : K) else 0)
+      = (J.map fun j => Tk M 0 i x y j).sum := by
+    intro i x y
+    have : ∀ j ∈ J, Tk M 0 i x y j
+        = if i = j then (if x = [] ∧ y = [] then (1 : K) else 0) else 0 := by
+      intro j _
+      rw [Tk_zero]
+      by_cases h : i = j <;> simp [h]
+    rw [List.map_congr_left this, sum_ite_eq_nodup J hJ i (fun _ => if x = [] ∧ y = [] then 1 else 0)]
+    by_cases h : fin i = true
+    · simp [h, (hfin i).mp h]
+    · have : i ∉ J := fun h' => h ((hfin i).mpr h')
+      simp [h, this]
+  induction N generalizing i x y with
+  | zero => rw [UN, hbase]; simp
+  | succ N ih =>
+    rw [UN, List.range_succ_eq_map (n := N+1), List.map_cons, List.sum_cons, List.map_map, hbase]
+    congr 1
+    simp only [Function.comp_def, Nat.succ_eq_add_one, Tk_succ, ih]
+    -- exchange the sums
+    simp only [← List.sum_map_mul_left]
+    rw [dsum_swap3]
+
+/-- **the graded sums refine the path sums**: summing `GN` over all grades gives the weight of the
+paths with at most `N` arcs to the final states -/
+theorem GN_total (M : FST ι σ K) (gr : TArc ι σ K → Nat × Nat)
+    (hgr : ∀ e ∈ M.arcs, (gr e).1 ≤ 1 ∧ (gr e).2 ≤ 1) (fin : ι → Bool) (J : List ι) (hJ : J.Nodup)
+    (hfin : ∀ j, fin j = true ↔ j ∈ J) (N : Nat) (i : ι) (x y : List σ) :
+    ((List.range (N+1)).map fun k1 => ((List.range (N+1)).map fun k2 =>
+        GN M gr fin N k1 k2 i x y).sum).sum
+      = ((List.range (N+1)).map fun k => (J.map fun j => Tk M k i x y j).sum).sum := by
+  rw [GN_sum M gr hgr, UN_eq M fin J hJ hfin]
+
+end Total
+end FstAux
+
+/-! ### accepting weights of `T1 @ T2`, by grade -/
+section GradedAccept
+variable {ι σ K : Type} [DecidableEq ι] [DecidableEq σ] [CommSemiring K]
+
+/-- graded accepting weight: paths with at most `N` arcs of total grade `(k1, k2)` from an initial to
+a final state, with the initial and final weights -/
+def GPN (M : FST ι σ K) (gr : TArc ι σ K → Nat × Nat) (N k1 k2 : Nat) (x y : List σ) : K :=
+  (M.start.map fun s => (M.stop.map fun f =>
+    s.2 * GN M gr (fun j => decide (j = f.1)) N k1 k2 s.1 x y * f.2).sum).sum
+
+/-- **summing the grades out gives `TPN`** -/
+theorem GPN_total (M : FST ι σ K) (gr : TArc ι σ K → Nat × Nat)
+    (hgr : ∀ e ∈ M.arcs, (gr e).1 ≤ 1 ∧ (gr e).2 ≤ 1) (N : Nat) (x y : List σ) :
+    ((List.range (N+1)).map fun k1 => ((List.range (N+1)).map fun k2 =>
+        GPN M gr N k1 k2 x y).sum).sum = TPN M N x y := by
+  unfold GPN
+  rw [dsum_swap1]
+  simp only [TPN_eq, TPk_eq]
+  rw [sum_swap (List.range (N+1)) M.start]
+  apply congrArg
+  apply List.map_congr_left
+  intro s _
+  rw [dsum_swap1, sum_swap (List.range (N+1)) M.stop]
+  apply congrArg
+  apply List.map_congr_left
+  intro f _
+  have h := GN_total M gr hgr (fun j => decide (j = f.1)) [f.1] (by simp) (by simp) N s.1 x y
+  simp only [List.map_cons, List.map_nil, List.sum_cons, List.sum_nil, add_zero] at h
+  simp only [List.sum_map_mul_left, List.sum_map_mul_right, h]
+
+/-- `GN` is additive in the set of final states -/
+theorem GN_fin_add (M : FST ι σ K) (gr : TArc ι σ K → Nat × Nat) (fin fin1 fin2 : ι → Bool)
+    (h : ∀ j, (fin j = true ↔ (fin1 j = true ∨ fin2 j = true)) ∧ ¬ (fin1 j = true ∧ fin2 j = true))
+    (N k1 k2 : Nat) (i : ι) (x y : List σ) :
+    GN M gr fin N k1 k2 i x y = GN M gr fin1 N k1 k2 i x y + GN M gr fin2 N k1 k2 i x y := by
+  have hbase : ∀ (k1 k2 : Nat) (i : ι) (x y : List σ),
+      (if k1 = 0 ∧ k2 = 0 ∧ fin i = true ∧ x = [] ∧ y = [] then (1 : K) else 0)
+      = (if k1 = 0 ∧ k2 = 0 ∧ fin1 i = true ∧ x = [] ∧ y = [] then 1 else 0)
+        + (if k1 = 0 ∧ k2 = 0 ∧ fin2 i = true ∧ x = [] ∧ y = [] then 1 else 0) := by
+    intro k1 k2 i x y
+    have hi := h i
+    by_cases h1 : fin1 i = true <;> by_cases h2 : fin2 i = true
+    · exact absurd ⟨h1, h2⟩ hi.2
+    · have : fin i = true := hi.1.mpr (Or.inl h1)
+      simp [this, h1, h2]
+    · have : fin i = true := hi.1.mpr (Or.inr h2)
+      simp [this, h1, h2]
+    · have : ¬ (fin i = true) := fun h' => by
+        rcases hi.1.mp h' with h' | h'
+        · exact h1 h'
+        · exact h2 h'
+      simp [this, h1, h2]
+  induction N generalizing k1 k2 i x y with
+  | zero => simp only [GN, hbase]
+  | succ N ih =>
+    simp only [GN, hbase]
+    have : ∀ e ∈ M.arcs.filter (fun e => e.src = i),
+        (if (gr e).1 ≤ k1 ∧ (gr e).2 ≤ k2 then
+          ((lpeel e.inp x).map fun x' => ((lpeel e.out y).map fun y' =>
+            e.w * GN M gr fin N (k1 - (gr e).1) (k2 - (gr e).2) e.dst x' y').sum).sum else 0)
+        = (if (gr e).1 ≤ k1 ∧ (gr e).2 ≤ k2 then
+            ((lpeel e.inp x).map fun x' => ((lpeel e.out y).map fun y' =>
+              e.w * GN M gr fin1 N (k1 - (gr e).1) (k2 - (gr e).2) e.dst x' y').sum).sum else 0)
+          + (if (gr e).1 ≤ k1 ∧ (gr e).2 ≤ k2 then
+            ((lpeel e.inp x).map fun x' => ((lpeel e.out y).map fun y' =>
+              e.w * GN M gr fin2 N (k1 - (gr e).1) (k2 - (gr e).2) e.dst x' y').sum).sum else 0) := by
+      intro e _
+      split
+      · simp only [ih, mul_add, sum_add_map]
+      · simp
+    rw [List.map_congr_left this, sum_add_map]
+    ring
+
+end GradedAccept
+
+section ComposeAccept
+variable {ι κ σ K : Type} [DecidableEq ι] [DecidableEq κ] [DecidableEq σ] [CommSemiring K]
+
+omit [DecidableEq ι] [DecidableEq κ] [DecidableEq σ] [CommSemiring K] in
+theorem mohriGrade_le (e : TArc ((ι × Nat) × κ) σ K) :
+    (mohriGrade e).1 ≤ 1 ∧ (mohriGrade e).2 ≤ 1 := by
+  unfold mohriGrade
+  split <;> simp
+
+/-- the three accepting states above `(p', q')` -/
+theorem GN_mohriFin (M : FST ((ι × Nat) × κ) σ K) (gr : TArc ((ι × Nat) × κ) σ K → Nat × Nat)
+    (p' : ι) (q' : κ) (N k1 k2 : Nat) (i : (ι × Nat) × κ) (x z : List σ) :
+    GN M gr (mohriFin p' q') N k1 k2 i x z
+      = GN M gr (fun j => decide (j = ((p', 0), q'))) N k1 k2 i x z
+        + (GN M gr (fun j => decide (j = ((p', 1), q'))) N k1 k2 i x z
+          + (GN M gr (fun j => decide (j = ((p', 2), q'))) N k1 k2 i x z + 0)) := by
+  rw [add_zero]
+  rw [GN_fin_add M gr (mohriFin p' q') (fun j => decide (j = ((p', 0), q')))
+      (fun j => decide (j = ((p', 1), q')) || decide (j = ((p', 2), q'))),
+    GN_fin_add M gr (fun j => decide (j = ((p', 1), q')) || decide (j = ((p', 2), q')))
+      (fun j => decide (j = ((p', 1), q'))) (fun j => decide (j = ((p', 2), q')))]
+  · intro j
+    simp only [Bool.or_eq_true, decide_eq_true_eq]
+    refine ⟨trivial, ?_⟩
+    rintro ⟨rfl, h⟩
+    simp at h
+  · rintro ⟨⟨a, φ⟩, b⟩
+    simp only [mohriFin, Bool.or_eq_true, decide_eq_true_eq, Prod.mk.injEq]
+    constructor
+    · constructor
+      · rintro ⟨rfl, hφ, rfl⟩
+        have : φ = 0 ∨ φ = 1 ∨ φ = 2 := by omega
+        rcases this with rfl | rfl | rfl <;> simp
+      · rintro (⟨⟨rfl, rfl⟩, rfl⟩ | ⟨⟨rfl, rfl⟩, rfl⟩ | ⟨⟨rfl, rfl⟩, rfl⟩) <;> simp
+    · rintro ⟨⟨⟨_, rfl⟩, _⟩, h⟩
+      rcases h with ⟨⟨_, h⟩, _⟩ | ⟨⟨_, h⟩, _⟩ <;> simp at h
+
+/-- **the general composition theorem at the level of accepting weights**: the accepting paths of
+`T1 @ T2` of grade `(k1, k2)` (at most `N ≥ k1 + k2` arcs) weigh
+`Σ_y T1(x, y)[k1 arcs] · T2(y, z)[k2 arcs]` -/
+theorem compose_graded_TPk (T1 : FST ι σ K) (T2 : FST κ σ K) (N k1 k2 : Nat) (hN : k1 + k2 ≤ N)
+    (n : Nat) (hn : k1 ≤ n) (x z : List σ) :
+    GPN (T1.compose T2) mohriGrade N k1 k2 x z
+      = ((strsLe T1.outSyms n).map fun y => TPk T1 k1 x y * TPk T2 k2 y z).sum := by
+  unfold GPN
+  rw [compose_start, compose_stop]
+  simp only [sum_flatMap, List.map_map, Function.comp_def]
+  simp only [TPk_eq, sum_mul_sum4]
+  rw [sum_swap (strsLe T1.outSyms n) T1.start]
+  apply congrArg
+  apply List.map_congr_left
+  intro s1 hs1
+  rw [sum_swap (strsLe T1.outSyms n) T2.start]
+  apply congrArg
+  apply List.map_congr_left
+  intro s2 hs2
+  rw [sum_swap (strsLe T1.outSyms n) T1.stop]
+  apply congrArg
+  apply List.map_congr_left
+  intro f1 _
+  -- the three filter states
+  have h3 : ∀ f2 : κ × K,
+      (([0, 1, 2] : List Nat).map fun φ =>
+        s1.2 * 1 * s2.2 * GN (T1.compose T2) mohriGrade (fun j => decide (j = ((f1.1, φ), f2.1)))
+          N k1 k2 ((s1.1, 0), s2.1) x z * (f1.2 * 1 * f2.2)).sum
+      = s1.2 * s2.2 * ((strsLe T1.outSyms n).map fun y =>
+          Tk T1 k1 s1.1 x y f1.1 * Tk T2 k2 s2.1 y z f2.1).sum * (f1.2 * f2.2) := by
+    intro f2
+    rw [← compose_graded_init T1 T2 f1.1 f2.1 N k1 k2 hN n hn s1.1
+      (FstAux.mem_states_start T1 s1 hs1) s2.1 (FstAux.mem_states_start T2 s2 hs2) x z,
+      GN_mohriFin]
+    simp only [List.map_cons, List.map_nil, List.sum_cons, List.sum_nil]
+    ring
+  rw [sum_swap ([0, 1, 2] : List Nat) T2.stop, sum_swap (strsLe T1.outSyms n) T2.stop]
+  apply congrArg
+  apply List.map_congr_left
+  intro f2 _
+  rw [h3 f2, ← List.sum_map_mul_left, ← List.sum_map_mul_right]
+  apply congrArg
+  apply List.map_congr_left
+  intro y _
+  ring
+
+/-- `TPN (T1 @ T2)` is the sum of the graded accepting weights -/
+theorem compose_GPN_total (T1 : FST ι σ K) (T2 : FST κ σ K) (N : Nat) (x z : List σ) :
+    ((List.range (N+1)).map fun k1 => ((List.range (N+1)).map fun k2 =>
+        GPN (T1.compose T2) mohriGrade N k1 k2 x z).sum).sum = TPN (T1.compose T2) N x z :=
+  GPN_total _ _ (fun e _ => mohriGrade_le e) N x z
+
+end ComposeAccept
+
 /-! ### non-vacuity examples (weights in `ℕ`) -/
 
 /-- no output-ε arc; an input-ε arc closing a cycle -/
@@ -2808,5 +3350,22 @@ example : TPN (exT1.composeRaw exT2) 2 [1, 1] [7] = 60 := by decide
 example : TPN (exT1.composeRaw exT2) 3 [1, 1] [7, 7] = 1260 := by decide
 -- through the filter (`__matmul__`): same value
 example : TPNtab (exT1.compose exT2) 3 [1, 1] [7] = 60 := by decide +kernel
+
+-- ε on the middle tape on both sides: two transducers with finitely many paths per input
+/-- output-ε arcs (`1 -7:ε-> 1`, `1 -7:ε-> 0`) and an `ε:ε` arc -/
+def exU1 : FST Nat Nat Nat :=
+  ⟨[(0, 1)], [(1, 2)],
+   [⟨0, some 7, some 8, 1, 3⟩, ⟨1, none, none, 0, 5⟩, ⟨1, some 7, none, 1, 1⟩, ⟨1, some 7, none, 0, 11⟩,
+    ⟨0, some 7, some 9, 0, 2⟩]⟩
+/-- input-ε arcs (`0 -ε:4-> 0`, `0 -ε:ε-> 1`) -/
+def exU2 : FST Nat Nat Nat :=
+  ⟨[(0, 1)], [(0, 1)],
+   [⟨0, some 8, some 1, 0, 2⟩, ⟨0, some 9, none, 0, 3⟩, ⟨0, none, some 4, 0, 5⟩, ⟨0, none, none, 1, 1⟩,
+    ⟨1, some 8, none, 0, 1⟩]⟩
+
+-- the graded accepting weight of `exU1 @ exU2` and the right-hand side of `compose_graded_TPk`
+example : GPN (exU1.compose exU2) mohriGrade 3 1 2 [7] [1, 4] = 60 := by decide +kernel
+example : ((strsLe exU1.outSyms 1).map fun y => TPk exU1 1 [7] y * TPk exU2 2 y [1, 4]).sum = 60 := by
+  decide +kernel
 
 end Genlm
